@@ -4,6 +4,7 @@ import (
 	"bytes"
 	"os"
 	"path/filepath"
+	"sort"
 	"testing"
 	"testing/synctest"
 
@@ -21,7 +22,8 @@ type c12Scenario struct {
 	framing map[int]bool  // clients whose data legitimately depends on the interleaving (a file they read is rewritten by
 	// another client): only the framing of their stream is judged, not its content
 	clients [][]Req
-	after   map[int]int // client index -> index of the client whose script must have been consumed (request bytes and FIN read by the server) before this one connects
+	hold    map[int]bool // clients that stay connected (no FIN) until everybody else is done: an idle neighbour
+	after   map[int]int  // client index -> index of the client whose script must have been consumed (request bytes and FIN read by the server) before this one connects
 	allow   bool
 	maxB    int // > 0: preemption bound cap for this scenario (three-client scenarios: the bound-3 space is out of reach)
 	reset   func()
@@ -30,6 +32,7 @@ type c12Scenario struct {
 
 type c12Out struct {
 	streams [][]byte
+	early   [][]byte // what each client had received when nothing could run any more, before idle neighbours left
 	points  []schedPoint
 	leaked  []string
 	aborted string
@@ -92,7 +95,9 @@ func c12Exec(t *testing.T, root string, sc c12Scenario, only int, prefix []int) 
 			for _, rq := range sc.clients[i] {
 				c.Send(rq.Encode())
 			}
-			c.Fin()
+			if !sc.hold[i] || only >= 0 {
+				c.Fin()
+			}
 			conns[i] = c
 			s.conns = append(s.conns, c)
 		}
@@ -112,6 +117,19 @@ func c12Exec(t *testing.T, root string, sc c12Scenario, only int, prefix []int) 
 		sched.mu.Lock()
 		sched.pass = true
 		sched.mu.Unlock()
+		for _, c := range conns {
+			if c == nil {
+				out.early = append(out.early, nil)
+			} else {
+				out.early = append(out.early, c.Peek())
+			}
+		}
+		for i, c := range conns {
+			if c != nil && sc.hold[i] && only < 0 {
+				c.Fin() // the idle neighbour leaves at last
+			}
+		}
+		synctest.Wait()
 		s.ln.Close()
 		synctest.Wait()
 		for _, c := range conns {
@@ -132,7 +150,7 @@ func c12Exec(t *testing.T, root string, sc c12Scenario, only int, prefix []int) 
 func TestC12(t *testing.T) {
 	r := NewReporter(t)
 	defer r.Done()
-	r.Rule("11 scenarios of 2-3 connections whose requests collide (same plain file, same generated image across member boundaries, CD images of different sector size, two directory enumerations, uploads into sibling files, churn, a client connecting while another one's teardown is running, an uploader next to a client whose mutations are refused); scheduling points = every connection read/write/close, every accept and every leaf filesystem operation of the server goroutines; all interleavings with <= 2 (quick) / <= 3 (thorough; 2 for the three-client scenarios) preemptions; oracle: each client's response stream equals the stream of its script run alone, connection closed, handle ledger empty, uploaded files exact; distinct by schedule (choice sequence)")
+	r.Rule("12 scenarios of 2-3 connections whose requests collide (same plain file, same generated image across member boundaries, CD images of different sector size, two directory enumerations, uploads into sibling files, churn, a client connecting while another one's teardown is running, an uploader next to a client whose mutations are refused, an idle neighbour that stays connected); scheduling points = every connection read/write/close, every accept and every leaf filesystem operation of the server goroutines; all interleavings with <= 2 (quick) / <= 3 (thorough; 2 for the three-client scenarios) preemptions; oracle: each client's response stream equals the stream of its script run alone, connection closed, handle ledger empty, uploaded files exact; distinct by schedule (choice sequence)")
 	w, _ := buildC02World(t, r)
 	defer w.Cleanup()
 	mkCDImage(w.Root, cdImg{name: "cd2336.bin", sector: 2336, sig: "psx", size: 0x200000}, 3)
@@ -185,6 +203,11 @@ func TestC12(t *testing.T) {
 		{name: "uploader-vs-refused-mutations", allow: true, reset: resetW, files: map[string][]byte{"w/a.bin": pa[:3000], "w/c.bin": []byte("second")}, clients: [][]Req{
 			{mkReq(opCreateFile, "/w/a.bin"), wrReq(pa[:3000]), mkReq(opMkdir, "/w/sub"), mkReq(opCreateFile, "/w/c.bin"), wrReq([]byte("second")), mkReq(opRmdir, "/w/sub")},
 			{mkReq(opCreateFile, "/***DVD***/game/x.bin"), mkReq(opMkdir, "/***PS3***/game/y"), mkReq(opCreateFile, "/nodir/z"), mkReq(opDeleteFile, "/***DVD***/game"), mkReq(opMkdir, "/plain"), mkReq(opStatFile, "/plain")}}},
+		// a client that stays connected and idle after its requests: everybody else is served all the same
+		{name: "idle-neighbour", hold: map[int]bool{0: true}, clients: [][]Req{
+			{mkReq(opOpenFile, "/plain/f65536.bin"), rdReq(0, 100)},
+			{mkReq(opOpenFile, "/plain/f65537.bin"), rdcReq(1, 1000), mkReq(opStatFile, "/plain")},
+			{mkReq(opOpenDir, "/d"), noargReq(opReadDir)}}},
 		{name: "churn", maxB: 2, clients: [][]Req{
 			{mkReq(opOpenFile, "/plain/f131073.bin"), rdcReq(0, 131073)},
 			{mkReq(opOpenFile, "/plain/f65536.bin"), rdcReq(0, 65536)},
@@ -280,6 +303,10 @@ func c12Explore(t *testing.T, r *Reporter, root string, sc c12Scenario, bound in
 				}
 				continue
 			}
+			if len(sc.hold) > 0 && !sc.hold[i] && !bytes.Equal(o.early[i], solo[i]) {
+				viol(sprintf("starved-by-idle-neighbour:client%d", i), sprintf("while client(s) %v stay connected and idle, client %d has received %d of its %d response bytes and nothing can make progress any more", keysOf(sc.hold), i, len(o.early[i]), len(solo[i])))
+				break
+			}
 			if !bytes.Equal(o.streams[i], solo[i]) {
 				viol(sprintf("stream-differs-from-solo:client%d", i), sprintf("client %d received a different response stream than when run alone: %s", i, describeDiff(o.streams[i], solo[i])))
 				break
@@ -363,4 +390,13 @@ func c12Framing(script []Req, stream []byte) string {
 		return sprintf("%d stray bytes after the last response", len(stream)-pos)
 	}
 	return ""
+}
+
+func keysOf(m map[int]bool) []int {
+	var out []int
+	for k := range m {
+		out = append(out, k)
+	}
+	sort.Ints(out)
+	return out
 }
